@@ -255,6 +255,8 @@ class ReplaceStringTransformation(StringValueTransformation):
             else:
                 sigma_string_plain = str(val)
                 replaced = self.re.sub(self.replacement, sigma_string_plain)
+                if replaced == sigma_string_plain:  # nothing was replaced: the value stays as it is
+                    return val
                 postprocessed_backslashes = re.sub(r"\\(?![*?])", r"\\\\", replaced)
                 cls = type(val)  # a case-sensitive string stays case-sensitive
                 if val.contains_placeholder():  # Preserve placeholders
